@@ -111,6 +111,9 @@ REG_LEMMAS_QUICK = [
     H("txfile.VerifReleaseOverflow", "releaseOverflowPages drops only free pages beyond the maximum directly below the end marker", "<= 2 regions (thorough 3)",
       quick={"params": {"regions": 2}, "timeout_ms": 5000}, thorough={"params": {"regions": 3}, "timeout_ms": 5000, "budget": "1700s"}),
 ]
+TRYGROW = H("txfile.VerifTryGrow", "metaManager.tryGrow from an arbitrary allocator state (symbolic maximum and end markers, optional free data region), with and without the overflow area: every page that becomes a meta page left the data allocator "
+      "(no meta page in the data free list or in the tail the data area can still grow into), exact counts, data area drained before the overflow area is used", "max < 2^30 pages, 1 free region (thorough 2), 1-3 pages (thorough 1-5)",
+      quick={"params": {"regions": 1, "maxcount": 3}, "timeout_ms": 10000}, thorough={"params": {"regions": 2, "maxcount": 5}, "timeout_ms": 10000, "budget": "1200s"})
 REG_LEMMAS_THOROUGH = [
     H("txfile.VerifFreelistAllocRegions", "AllocRegionsWith, both orders: exactly n free pages, reported sorted, none both free and handed out", "<= 2 regions", tiers=("thorough",),
       thorough={"params": {"regions": 2}, "timeout_ms": 5000, "budget": "1700s"}),
@@ -121,7 +124,7 @@ REG_LEMMAS_THOROUGH = [
 ]
 
 prop("C04", bounds=PROG_BOUNDS, outside=PROG_OUT,
-     harnesses=REG_LEMMAS_QUICK + REG_LEMMAS_THOROUGH + [FREECYCLE, OVERFLOW, ALLOCFREE_REOPEN, CHURN,
+     harnesses=REG_LEMMAS_QUICK + REG_LEMMAS_THOROUGH + [TRYGROW, FREECYCLE, OVERFLOW, ALLOCFREE_REOPEN, CHURN,
                H("txfile.VerifRegionRoundTrip", "free-list entries survive serialization (a wrongly decoded region would make live pages allocatable after reopen)", "id<2^55, count in [1,2^32)"),
                H("txfile.VerifProgAbort", "after Rollback / Close / a Commit that fails with an injected I/O error, follow-up allocations own their pages", "nops=2, pre=1",
                  quick={"params": {"nops": 2, "pre": 1}}, thorough={"params": {"nops": 2, "pre": 2}, "max_paths": 300000, "budget": "1200s"})] + variants("txfile.VerifProgOwn", "every id returned by Alloc/AllocN is >= 2, not live, not freed-but-committed, not internal; ownership partition after every commit",
@@ -130,7 +133,7 @@ prop("C04", bounds=PROG_BOUNDS, outside=PROG_OUT,
 # ------------------------------------------------------------------ C11
 prop("C11", bounds=PROG_BOUNDS, outside=PROG_OUT,
      harnesses=variants("txfile.VerifProgOwn", "allocatable + live + meta area + 2 == max pages, extent <= max, FileStats == model after every commit",
-                        {"nops": 3, "ntx": 1}, {"nops": 2, "ntx": 2}, vs=(0, 1, 4, 5, 6), quick_vs=(0, 5, 6)) + [FREECYCLE, ALLOCFREE_REOPEN,
+                        {"nops": 3, "ntx": 1}, {"nops": 2, "ntx": 2}, vs=(0, 1, 4, 5, 6), quick_vs=(0, 5, 6)) + [TRYGROW, FREECYCLE, ALLOCFREE_REOPEN,
          H("txfile.VerifRegionRoundTrip", "free regions survive serialization exactly (a region decoded with a wrong count would leak or duplicate pages after a reopen)", "id<2^55, count in [1,2^32)"),
          H("txfile.VerifFreelistSerialize", "multi-page free list round trip: the reopened file counts the same free pages", "<= 2 meta + 4 data regions", thorough={"params": {"meta": 3, "data": 5}, "max_paths": 200000, "budget": "1200s"}),
          H("txfile.VerifFault", "transactions that end with an I/O failure (failed Commit; Rollback after a failed Flush write) give every page back: allocator snapshot, space identity and stats unchanged", "nops=1",
@@ -194,6 +197,8 @@ prop("C01", bounds=CRASH_BOUNDS,
                 OVERFLOW,
                 H("txfile.VerifFault", "a Commit that fails with an I/O error, further transactions, then a restart: the reopened file shows the last committed state (no mixture with the failed attempt, whose freed pages must not be re-used)",
                   "nops=1 quick / 2 thorough", quick={"params": {"nops": 1}}, thorough={"params": {"nops": 2}, "max_paths": 300000, "budget": "1500s"}),
+                H("txfile.VerifProgOwn", "smallest pre-sized meta area (InitMetaArea=1): ownership partition from the first transaction on (a page owned twice would let a flush overwrite a committed page before the commit)", "variant 6, nops=3",
+                  quick={"params": {"variant": 6, "nops": 3, "ntx": 1}}, thorough={"params": {"variant": 6, "nops": 2, "ntx": 2}, "max_paths": 300000, "budget": "1200s"}),
                 H("txfile.VerifCheckTruncate", "checkTruncate never cuts below the extent of the last two transactions or the configured maximum", "all 64-bit markers/sizes < 2^40 pages"),
                 H("txfile.VerifMetaDamageThenCommit", "a torn / damaged older header does not influence the commits that follow a recovery", "garbage txid/checksum fully symbolic"),
                 H("txfile.VerifRegionRoundTrip", "recovery reads the free lists back exactly (a wrongly decoded region would let later transactions overwrite recovered pages)", "id<2^55, count in [1,2^32)"),
@@ -213,6 +218,7 @@ prop("C08",
          H("txfile.VerifFault", "same on an unbounded file", "variant 3", tiers=("thorough",), thorough={"params": {"nops": 2, "variant": 3}, "max_paths": 300000, "budget": "1500s"}),
          H("txfile.VerifFaultGrow", "Size / MMap / Truncate failing inside Commit (unbounded file grown past its mapping; bounded file cut back after the overflow area was used): error, no panic, File keeps a live mapping, "
            "last committed state readable, follow-up transaction and reopen work", "2 scenarios x {mmap, size, truncate, none} x 2 ordinals x 3 growth sizes", reach=["end", "mmap in Commit", "truncate in Commit"]),
+         H("txfile.VerifResize", "I/O failures inside the open-time maintenance transactions (limit update, page release, preallocation, re-mapping): Open returns an error or a usable File, never panics or hangs; the file opens again", "as C14, fault kinds write/sync/truncate/mmap/size x 3 ordinals"),
          H("txfile.VerifOpenFault", "failing I/O while creating/opening: error (never a panic), no mapping left, later open works", "existing/new x prealloc x 6 kinds x 3 ordinals"),
          H("txfile.VerifCheckTruncate", "checkTruncate never cuts below the old state's extent, the new state's extent or the configured maximum", "all 64-bit markers/sizes < 2^40 pages"),
          H("txfile.VerifWriterBigBatch", "more than 1024 queued writes ahead of a sync request: the sync still comes after all of them, the header write after the sync", "1025 / 1525 / 2025 messages"),
@@ -248,6 +254,8 @@ prop("C09", bounds=LOCK_BOUNDS,
            quick={"params": {"readers": 2, "writers": 1, "preempt": 2}}, thorough={"params": {"readers": 3, "writers": 1, "preempt": 2}, "max_paths": 400000, "budget": "900s"}),
          HS(30, "txfile.VerifFileConcurrent", "same with an Observer installed (the application watches FileStats): no data race on the statistics", "1 reader, 1 preemption, observer",
            quick={"params": {"readers": 1, "preempt": 1, "observer": 1}}, thorough={"params": {"readers": 2, "preempt": 1, "observer": 1}, "max_paths": 400000, "budget": "1200s"}),
+         HS(200, "txfile.VerifLockProtocol", "same; a reader woken by the end of one commit while the next writer already holds pending and exclusive", "1R+2W, 2 preemptions",
+           quick={"params": {"readers": 1, "writers": 2, "preempt": 2}, "max_paths": 400000}, thorough={"params": {"readers": 2, "writers": 2, "preempt": 2}, "max_paths": 400000, "budget": "900s"}),
          H("txfile.VerifCloseConcurrent", "File.Close while a transaction is open: waits for it, does not block readers the writer's owner starts, no deadlock", "read-only / write transaction, commit / rollback",
            thorough={"params": {"preempt": 1}}),
          H("txfile.VerifLockBalance", "every ending of a transaction (commit, rollback, close, failing commit; read-only close/commit/rollback) leaves the lock idle; Begin/BeginReadonly/Close return", "2 rounds x 7 endings, fault on write/sync at 2 ordinals"),
@@ -270,6 +278,10 @@ prop("C02", bounds=LOCK_BOUNDS + "; sequential shadow lemma: reader open across 
            thorough={"params": {"readers": 2, "preempt": 1}, "max_paths": 100000}),
          HS(200, "txfile.VerifLockProtocol", "exclusive section (header switch) excludes shared sections", "2R+2W, 1 preemption",
            quick={"params": {"readers": 2, "writers": 2, "preempt": 1}}, thorough={"params": {"readers": 2, "writers": 2, "preempt": 2}, "max_paths": 400000, "budget": "900s"}),
+         HS(200, "txfile.VerifLockProtocol", "same; a reader woken by the end of one commit while the next writer already holds pending and exclusive", "1R+2W, 2 preemptions",
+           quick={"params": {"readers": 1, "writers": 2, "preempt": 2}, "max_paths": 400000}, thorough={"params": {"readers": 2, "writers": 2, "preempt": 2}, "max_paths": 400000, "budget": "900s"}),
+         H("txfile.VerifShadow", "overwrite-log focus: overwrites and explicit (page) flushes only, 4 operations after a committed overwrite: an overwrite page released by the writer is still what readers read", "opset=3 nops=4",
+           quick={"params": {"opset": 3, "nops": 4, "pre": 1}}, thorough={"params": {"opset": 3, "nops": 5, "pre": 1}, "max_paths": 400000, "budget": "1200s"}),
      ])
 
 # ------------------------------------------------------------------ pq
@@ -297,6 +309,7 @@ prop("C05", bounds=PQ_BOUNDS, outside=PQ_OUT,
            thorough={"params": {"wbuf": 8192}}),
 H("pq.VerifQueueFault", "a flush / ACK whose transaction fails (injected write/sync failure, i.e. after the pages were allocated): error, the buffered events are kept and flushed by the retry, nothing lost or duplicated, counters exact",
            "2 sizes x 2 kinds x 3 ordinals x flush/ACK x reopen", quick={"params": {"nsizes": 2}}, thorough={"params": {"nsizes": 4, "faultords": 5}, "max_paths": 400000, "budget": "1500s"}),
+         H("pq.VerifQueueFull", "Write / Next failing on a full file and retried after space was freed: the retried event has its own size and bytes, nothing merged or reordered", "3 sizes x 2 ACK steps x 2 cycles x retry"),
          H("pq.VerifPqPosition", "position encoding round trip for every page id < 2^40, offset in [28,1024], event id; id ordering with wrap-around", "full-width symbolic"),
      ])
 
@@ -349,6 +362,8 @@ prop("C13", bounds=PQ_BOUNDS + "; one producer goroutine (Write, Next, optional 
             thorough={"params": {"events": 2, "preempt": 2, "nsizes": 2}, "max_paths": 2000000, "budget": "1700s"}),
          HS(50, "pq.VerifQueueConcurrent", "same", "3 events, 1 preemption", tiers=("thorough",),
             thorough={"params": {"events": 3, "preempt": 1, "nsizes": 2}, "max_paths": 2000000, "budget": "1700s"}),
+         HS(200, "txfile.VerifLockProtocol", "same; a reader woken by the end of one commit while the next writer already holds pending and exclusive", "1R+2W, 2 preemptions",
+           quick={"params": {"readers": 1, "writers": 2, "preempt": 2}, "max_paths": 400000}, thorough={"params": {"readers": 2, "writers": 2, "preempt": 2}, "max_paths": 400000, "budget": "900s"}),
          H("pq.VerifQueueFIFO", "operation-level interleaving of producer and consumer steps incl. abandoned events and events arriving after the consumer reached the tail (sequential)", "2 events x 2 sizes x 3 read modes",
            quick={"params": {"events": 2, "nsizes": 2, "skip": 1}}, thorough={"params": {"events": 2, "nsizes": 3, "skip": 1}, "max_paths": 400000, "budget": "1500s"}),
      ])
